@@ -85,9 +85,6 @@ theorem plain_not_refSp {c : Cls} (hwf : WF c) {sp : Name} (hp : Plain c sp) : i
   | false => rfl
   | true => exact absurd ((isRefSp_iff hwf ha hf).mp h) hr
 
-/-- an argument name is either a spelling of a non-referential attribute or EXACTLY a referential name -/
-def ArgOK (c : Cls) (n : Name) : Prop := Plain c n ∨ n ∈ c.refs
-
 theorem lastGiven_filter_refs {c : Cls} (hwf : WF c) {a : Name} (ha : a ∈ c.names) (hr : a ∉ c.refs) :
     ∀ (l : List (Name × Val)),
       lastGiven (fold a) (l.filter fun it => !(decide (it.1 ∈ c.refs))) = lastGiven (fold a) l
@@ -104,36 +101,15 @@ theorem lastGiven_filter_refs {c : Cls} (hwf : WF c) {a : Name} (ha : a ∈ c.na
     · simp only [List.filter_cons, hn, decide_false, Bool.not_false, ↓reduceIte, lastGiven,
         lastGiven_filter_refs hwf ha hr r]
 
-/-- the writes an item list amounts to: items whose name is (exactly) referential go to the local dict -/
-def writesOf (c : Cls) (items : List (Name × Val)) : List Op :=
-  (items.filter fun it => !(decide (it.1 ∈ c.refs))).map fun it => Op.write it.1 it.2
-
-/-- the assignment loops on admissible argument names never raise; the dictionary is the history of the
-    writes to non-referential names -/
-theorem assignAll_mixed {c : Cls} (hwf : WF c) : ∀ (items : List (Name × Val)) (acc : NewAcc),
-    (∀ it ∈ items, ArgOK c it.1) →
-    ∃ rd, assignAll c acc items = (⟨run c acc.dict (writesOf c items), rd⟩, .ok)
-  | [], acc, _ => ⟨acc.refd, rfl⟩
-  | (n, v) :: r, acc, hp => by
-    by_cases hn : n ∈ c.refs
-    · obtain ⟨rd, ih⟩ := assignAll_mixed hwf r ⟨acc.dict, dset acc.refd n v⟩ (fun it hi => hp it (by simp [hi]))
-      refine ⟨rd, ?_⟩
-      simp only [assignAll, assignArg, hn, ↓reduceIte, ih, writesOf, List.filter_cons, decide_true, Bool.not_true,
-        Bool.false_eq_true]
-    · rcases hp (n, v) (by simp) with ⟨a, ha, hr, hf⟩ | h
-      · obtain ⟨rd, ih⟩ := assignAll_mixed hwf r ⟨dset acc.dict a v, acc.refd⟩ (fun it hi => hp it (by simp [hi]))
-        refine ⟨rd, ?_⟩
-        simp only [assignAll, assignArg, hn, ↓reduceIte, setattr_plain hwf acc.dict v ha hr hf, ih, writesOf,
-          List.filter_cons, decide_false, Bool.not_false, List.map_cons, run, List.foldl_cons, step]
-      · exact absurd h hn
-
-theorem filtered_plain {c : Cls} (items : List (Name × Val)) (hp : ∀ it ∈ items, ArgOK c it.1) :
-    ∀ it ∈ items.filter (fun it => !(decide (it.1 ∈ c.refs))), Plain c it.1 := by
-  intro it hi
-  simp only [List.mem_filter, Bool.not_eq_true', decide_eq_false_iff_not] at hi
-  rcases hp it hi.1 with h | h
-  · exact h
-  · exact absurd h hi.2
+theorem lastGiven_map_resolve (c : Cls) (u : Name) : ∀ (l : List (Name × Val)),
+    lastGiven u (l.map (resolveKw c)) = lastGiven u l
+  | [] => rfl
+  | kw :: r => by
+    obtain ⟨n, v⟩ := kw
+    have hf := fold_resolveKw c (n, v)
+    have hv : (resolveKw c (n, v)).2 = v := rfl
+    rw [List.map_cons, show resolveKw c (n, v) = ((resolveKw c (n, v)).1, v) from Prod.ext rfl hv]
+    simp only [lastGiven, lastGiven_map_resolve c u r, hf]
 
 /-! ### `computeDefaults` -/
 
@@ -212,12 +188,12 @@ where
 /-! ### one constructor call -/
 
 /-- after a covered history: the good dictionary, what every spelling reads, and the stored cell itself -/
-theorem run_read {c : Cls} (hwf : WF c) (d0 : Dict) (hg : Good c d0) (h : List Op) (hv : Valid c (absOf c d0) h) :
+theorem run_read {c : Cls} (hwf : WF c) (d0 : Dict) (hg : Good c d0) (h : List Op) :
     Good c (run c d0 h) ∧ ∀ a ∈ c.names,
       dget (run c d0 h) a = lastValue c (fold a) (dget d0 a) h ∧
       (a ∉ c.refs → ∀ sp, fold sp = fold a →
         getattr c (run c d0 h) sp = cellRead (lastValue c (fold a) (dget d0 a) h)) := by
-  obtain ⟨hg', hs'⟩ := run_sim hwf h d0 (absOf c d0) hg (sim_absOf hwf d0) hv
+  obtain ⟨hg', hs'⟩ := run_sim hwf h d0 (absOf c d0) hg (sim_absOf hwf d0)
   refine ⟨hg', ?_⟩
   intro a ha
   have hcell : dget (run c d0 h) a = lastValue c (fold a) (dget d0 a) h := by
@@ -226,27 +202,21 @@ theorem run_read {c : Cls} (hwf : WF c) (d0 : Dict) (hg : Good c d0) (h : List O
   intro hr sp hf
   rw [getattr_plain hwf hg' ha hr hf, hcell]
 
-/-- defaults, then positional values, then keywords: the items of one call -/
+/-- defaults, then positional values, then the resolved keywords: the items of one call -/
 def callItems (stream : Nat → Int) (call : Call) (pos : Nat) : List (Name × Val) :=
-  (computeDefaults (typedDefault stream) call.cls call.cls.attrs pos).1 ++ call.cls.names.zip call.args ++ call.kwargs
+  newItems call.cls (computeDefaults (typedDefault stream) call.cls call.cls.attrs pos).1 call.args call.kwargs
 
-/-- the argument items of a call whose keyword names are admissible -/
-theorem items_ok (stream : Nat → Int) (call : Call) (pos : Nat)
-    (hkw : ∀ kw ∈ call.kwargs, ArgOK call.cls kw.1) :
-    ∀ it ∈ callItems stream call pos, ArgOK call.cls it.1 := by
+/-- every item name of a call is a declared name in its declared spelling, or no spelling of a declared name -/
+theorem items_ok (stream : Nat → Int) (call : Call) (pos : Nat) :
+    ∀ it ∈ callItems stream call pos, Resolved call.cls it.1 := by
   intro it hi
-  simp only [callItems, List.mem_append] at hi
-  rcases hi with (hi | hi) | hi
+  simp only [callItems, newItems, List.mem_append, List.mem_map] at hi
+  rcases hi with (hi | hi) | ⟨kw, _, rfl⟩
   · obtain ⟨n, v⟩ := it
-    obtain ⟨hr, ty, _, _, hm, _⟩ := computeDefaults_mem _ _ _ _ n v hi
-    have hn : n ∈ call.cls.names := List.mem_map.mpr ⟨(n, ty), hm, rfl⟩
-    exact Or.inl ⟨n, hn, hr, rfl⟩
-  · obtain ⟨n, v⟩ := it
-    have hn : n ∈ call.cls.names := (List.of_mem_zip hi).1
-    by_cases hr : n ∈ call.cls.refs
-    · exact Or.inr hr
-    · exact Or.inl ⟨n, hn, hr, rfl⟩
-  · exact hkw it hi
+    obtain ⟨_, ty, _, _, hm, _⟩ := computeDefaults_mem _ _ _ _ n v hi
+    exact Or.inl (List.mem_map.mpr ⟨(n, ty), hm, rfl⟩)
+  · exact Or.inl (List.of_mem_zip hi).1
+  · exact resolved_resolveKw call.cls kw
 
 theorem defs_nodup {c : Cls} (hwf : WF c) (dflt : DfltFn) (pos : Nat)
     (hok : (computeDefaults dflt c c.attrs pos).2.2 = true) :
@@ -259,9 +229,8 @@ theorem defs_nodup {c : Cls} (hwf : WF c) (dflt : DfltFn) (pos : Nat)
     List.Sublist.map _ List.filter_sublist
   exact (List.Sublist.map fold hs).nodup hwf.1
 
-/-- what one constructor call leaves behind (all types known, admissible keyword names) -/
+/-- what one constructor call leaves behind (all types known; any keyword names) -/
 theorem newOne_spec (stream : Nat → Int) (call : Call) (pos : Nat) (hwf : WF call.cls)
-    (hkw : ∀ kw ∈ call.kwargs, ArgOK call.cls kw.1)
     (hok : (computeDefaults (typedDefault stream) call.cls call.cls.attrs pos).2.2 = true) :
     (newOne stream call pos).1.ok = true ∧
     (newOne stream call pos).1.defs = (computeDefaults (typedDefault stream) call.cls call.cls.attrs pos).1 ∧
@@ -273,13 +242,14 @@ theorem newOne_spec (stream : Nat → Int) (call : Call) (pos : Nat) (hwf : WF c
       (a ∉ call.cls.refs → ∀ sp, fold sp = fold a → getattr call.cls (newOne stream call pos).1.dict sp =
         cellRead ((lastGiven (fold a) call.kwargs).or ((lastGiven (fold a) (call.cls.names.zip call.args)).or
           (lastGiven (fold a) (newOne stream call pos).1.defs)))) := by
-  have hitems := items_ok stream call pos hkw
-  obtain ⟨rd, hass⟩ := assignAll_mixed hwf _ ⟨[], []⟩ hitems
-  have hplain : ∀ it ∈ (callItems stream call pos).filter (fun it => !(decide (it.1 ∈ call.cls.refs))),
-      Plain call.cls it.1 := filtered_plain _ hitems
-  have hv : Valid call.cls (absOf call.cls []) (writesOf call.cls (callItems stream call pos)) :=
-    valid_writes (c := call.cls) _ (absOf call.cls []) hplain
-  obtain ⟨hg, hall⟩ := run_read hwf [] (good_nil call.cls) _ hv
+  have hitems := items_ok stream call pos
+  obtain ⟨rd, hass⟩ := assignAll_resolved hwf _ ⟨[], []⟩ hitems
+  have hnr : ∀ it ∈ (callItems stream call pos).filter (fun it => !(decide (it.1 ∈ call.cls.refs))),
+      isRefSp call.cls it.1 = false := by
+    intro it hi
+    simp only [List.mem_filter, Bool.not_eq_true', decide_eq_false_iff_not] at hi
+    exact resolved_not_refSp hwf (hitems it hi.1) hi.2
+  obtain ⟨hg, hall⟩ := run_read hwf [] (good_nil call.cls) (writesOf call.cls (callItems stream call pos))
   have hnew : (newOne stream call pos).1 =
       { dict := run call.cls [] (writesOf call.cls (callItems stream call pos))
         defs := (computeDefaults (typedDefault stream) call.cls call.cls.attrs pos).1, ok := true } := by
@@ -298,10 +268,9 @@ theorem newOne_spec (stream : Nat → Int) (call : Call) (pos : Nat) (hwf : WF c
           (lastGiven (fold a) (computeDefaults (typedDefault stream) call.cls call.cls.attrs pos).1)) := by
     intro hr
     unfold writesOf
-    rw [lastValue_writes _ _ _ _ (fun it hi => plain_not_refSp hwf (hplain it hi)),
-      lastGiven_filter_refs hwf ha hr]
-    unfold callItems
-    rw [lastGiven_append, lastGiven_append]
+    rw [lastValue_writes _ _ _ _ hnr, lastGiven_filter_refs hwf ha hr]
+    unfold callItems newItems
+    rw [lastGiven_append, lastGiven_append, lastGiven_map_resolve]
     simp [dget]
   obtain ⟨h1, h2⟩ := hall a ha
   refine ⟨fun hr => ?_, fun hr sp hf => ?_⟩
@@ -468,8 +437,7 @@ theorem aux_props (c : Cls) (kw : List (Name × Val)) : ∀ (attrs : List (Name 
     · exact aux_props c kw r (npos - 1) a h
 
 /-- one call: the ids left to their default are a sub-sequence of the values the call drew -/
-theorem newOne_ids (stream : Nat → Int) (call : Call) (pos : Nat) (hwf : WF call.cls)
-    (hkw : ∀ kw ∈ call.kwargs, ArgOK call.cls kw.1) :
+theorem newOne_ids (stream : Nat → Int) (call : Call) (pos : Nat) (hwf : WF call.cls) :
     pos ≤ (newOne stream call pos).2 ∧
     (defaultedIds call (newOne stream call pos).1).Sublist
       ((List.range' pos ((newOne stream call pos).2 - pos)).map fun p => some (Val.int (stream p))) := by
@@ -484,7 +452,7 @@ theorem newOne_ids (stream : Nat → Int) (call : Call) (pos : Nat) (hwf : WF ca
       unfold newOne; simp [hok]
     simp [defaultedIds, this]
   | true =>
-    obtain ⟨hmok, hdefs, _, hall⟩ := newOne_spec stream call pos hwf hkw hok
+    obtain ⟨hmok, hdefs, _, hall⟩ := newOne_spec stream call pos hwf hok
     have hnd : ((call.cls.attrs.map (·.1)).map fold).Nodup := hwf.1
     unfold defaultedIds
     rw [if_pos hmok, hpos]
@@ -507,14 +475,14 @@ theorem newOne_ids (stream : Nat → Int) (call : Call) (pos : Nat) (hwf : WF ca
 /-- any sequence of calls: all defaulted ids, in creation order, are a sub-sequence of the consecutive
     generator values `stream pos, stream (pos+1), …` -/
 theorem newMany_ids (stream : Nat → Int) : ∀ (calls : List Call) (pos : Nat),
-    (∀ call ∈ calls, WF call.cls ∧ ∀ kw ∈ call.kwargs, ArgOK call.cls kw.1) →
+    (∀ call ∈ calls, WF call.cls) →
     pos ≤ (newMany stream calls pos).2 ∧
     (allDefaultedIds calls (newMany stream calls pos).1).Sublist
       ((List.range' pos ((newMany stream calls pos).2 - pos)).map fun p => some (Val.int (stream p)))
   | [], pos, _ => by simp [newMany, allDefaultedIds]
   | call :: r, pos, h => by
-    obtain ⟨hwf, hkw⟩ := h call (by simp)
-    obtain ⟨h1, s1⟩ := newOne_ids stream call pos hwf hkw
+    have hwf := h call (by simp)
+    obtain ⟨h1, s1⟩ := newOne_ids stream call pos hwf
     obtain ⟨h2, s2⟩ := newMany_ids stream r (newOne stream call pos).2 (fun c hc => h c (by simp [hc]))
     simp only [newMany, allDefaultedIds]
     refine ⟨Nat.le_trans h1 h2, ?_⟩
